@@ -68,8 +68,18 @@ func (c *Ctx) Precedes(fn *ssa.Function, firstDesc string, first SinkSel, thenDe
 		c.Bad("O", key, instrPos(thens[0]), len(thens), "no '"+firstDesc+"' in "+fnName(fn)+" at all; '"+thenDesc+"' at "+c.P.Pos(instrPos(thens[0]))+" is not preceded by it")
 		return
 	}
-	w := &Walker{P: c.P, Stop: func(in ssa.Instruction) bool { return first(in) }}
-	hit, found := w.Reach(fn, fn.Blocks[0], 0, func(in ssa.Instruction) bool { return !first(in) && then(in) })
+	// a deferred or spawned `first` has not happened yet where it is registered
+	happened := func(in ssa.Instruction) bool {
+		switch in.(type) {
+		case *ssa.Defer, *ssa.Go:
+			if !c.RegistrationIsEvent && callCommon(in) != nil && !then(in) {
+				return false
+			}
+		}
+		return first(in)
+	}
+	w := &Walker{P: c.P, Stop: happened}
+	hit, found := w.Reach(fn, fn.Blocks[0], 0, func(in ssa.Instruction) bool { return !happened(in) && then(in) })
 	if found {
 		c.Bad("O", key, instrPos(hit.Instr), len(thens)+len(firsts), fmt.Sprintf("%s at %s reachable without a preceding %s; path %s", describeInstr(hit.Instr), c.P.Pos(instrPos(hit.Instr)), firstDesc, c.P.pathStr(hit.Path)))
 		return
